@@ -213,13 +213,18 @@ class GateEvent:
         return self._real.wait(timeout)
 
 
+class BodyFailed(Exception):
+    pass
+
+
 def replay_schedule(util_mod, cls, tracked, lock_attrs, calls, schedule, timeout=5.0, event_attrs=(), fault_codes=None,
-                    guarded=False):
+                    guarded=False, raise_at=None):
     """fault_codes: {method name: code object} of the progress-class methods -- schedule steps
     {"op":"fault","raises":True,"site":[method, bytecode offset]} make that call expression raise (injected, with
     sys.monitoring CALL events, exactly when the call is about to be made: equivalent to the callee -- print,
     str.format, file.write/flush, ... -- raising).  guarded: the caller is `enter(); try: update()... finally: exit()`
-    (the shape of `with progress(...) as p:`), otherwise the plain call sequence."""
+    otherwise the plain call sequence; guarded="with": the caller is the real statement
+    `with obj as p: p.update(0); ...` and, if raise_at=j, its body raises before the j-th update (j=u: after the last)."""
     """calls: [(method, args)] of the caller thread; schedule: list of {"thread","op",...}.
     -> dict(leaked=[timer idx...], threads=[...], desync=None|str, bytes_after_exit, rearmed, log)"""
     sched = Scheduler(timeout)
@@ -263,7 +268,17 @@ def replay_schedule(util_mod, cls, tracked, lock_attrs, calls, schedule, timeout
         def caller():
             sched.thread_started("main")
             try:
-                if guarded:
+                if guarded == "with":
+                    # the real `with` statement: the class' own __enter__/__exit__ run, __exit__ gets the exception
+                    upd = calls[1:-1]
+                    with obj as p_:
+                        for j_, (m, args) in enumerate(upd):
+                            if raise_at == j_:
+                                raise BodyFailed("the with-body fails before update #%d" % j_)
+                            getattr(p_ if p_ is not None else obj, m)(*args)
+                        if raise_at == len(upd):
+                            raise BodyFailed("the with-body fails after its last update")
+                elif guarded:
                     getattr(obj, calls[0][0])(*calls[0][1])
                     try:
                         for m, args in calls[1:-1]:
